@@ -10,6 +10,7 @@
 import ICal.Lemmas.StartEnd
 import ICal.Lemmas.BodiesSE
 import ICal.Lemmas.BodiesSEFull
+import ICal.Lemmas.BodiesSEDesc
 namespace ICal.C16
 open ICal.SE
 
@@ -458,5 +459,41 @@ theorem body_end_full (c : SE.Cls) (hc : Bodies.seHasEnd c = true) (s : SE.St) :
 theorem body_duration (p : SE.Prov) (c : SE.Cls) (hc : Bodies.seHasEnd c = true) (s : SE.St) :
     Bodies.seDurationP p c (Bodies.seLift (SE.getProp s.dtstart)) (Bodies.seLift (SE.getProp (s.get (SE.endKey c)))) (Bodies.seLift (SE.getDur s.duration)) =
       Bodies.seLift (SE.getDuration p c s) := Bodies.duration_eq_se p c hc s
+
+/-! ### the setter / deleter closures of `create_single_property`, `_set_duration`, `_del_duration` as regenerated (wave 9)
+
+`Bodies.pSetB` / `pDelB` / `setDurationB` / `delDurationB` are the translated closures `p_set` / `p_del` (their free variables `prop`,
+`value_type`, `vProp` are parameters, instantiated for the descriptor at hand) and the translated `_set_duration` / `_del_duration` with the
+pieces of ICal/Model/SEDescPieces.lean: `self` is the model's `St`, `self.pop(k[, None])` empties an entry and never raises,
+`self[k] = v` stores one value, `self.exclusive` is the tuple regenerated into `Gen.compClasses`.  What is pinned: the instance test comes
+first (TypeError before anything is changed), the new value is stored under `prop`, then - only when `prop` is in the class's `exclusive`
+tuple - every OTHER name of the tuple is popped; there is no early exit for an unchanged value; `None` deletes; `_set_duration` pops DTEND
+*and* DUE whatever the class. -/
+
+theorem body_p_set (c : SE.Cls) (s : SE.St) (k : SE.Key) (x : SE.Arg) :
+    Bodies.pSetB c s k x = Bodies.seLift (SE.pSet c s k x) := Bodies.p_set_eq c s k x
+
+theorem body_p_del (s : SE.St) (k : SE.Key) : Bodies.pDelB s k = s.put k .absent := Bodies.p_del_eq s k
+
+theorem body_set_duration (s : SE.St) (x : SE.Arg) :
+    Bodies.setDurationB s x = Bodies.seLift (SE.setDuration s x) := Bodies.set_duration_eq s x
+
+theorem body_del_duration (s : SE.St) : Bodies.delDurationB s = s.put .duration .absent := Bodies.del_duration_eq s
+
+/-- One operation of the model, with every setter and deleter replaced by its regenerated body, is the model's `step`: the histories of
+    `excl_inv` run the code as it is written now. -/
+theorem body_step (c : SE.Cls) (s : SE.St) (op : SE.Op) : Bodies.stepB c s op = Bodies.seLift (SE.step c s op) :=
+  Bodies.step_eq c s op
+
+/-- ... and so keeps the invariant. -/
+theorem body_step_excl (c : SE.Cls) (s : SE.St) (op : SE.Op) (he : op.isEdit = true) (hi : SE.Inv s) : SE.Inv (Bodies.nextB c s op) := by
+  have h : Bodies.nextB c s op = SE.next c s op := by
+    unfold Bodies.nextB SE.next
+    rw [Bodies.step_eq]
+    cases SE.step c s op <;> rfl
+  rw [h]
+  exact excl_step c s op he hi
+example : Bodies.pSetB .event ⟨.absent, .absent, .absent, .one (.dur 5)⟩ .dtend (.val (.date 3)) = .ok ⟨.absent, .one (.date 3), .absent, .absent⟩ := rfl
+example : Bodies.setDurationB ⟨.absent, .one (.date 3), .one (.date 4), .absent⟩ (.val (.dur 5)) = .ok ⟨.absent, .absent, .absent, .one (.dur 5)⟩ := rfl
 
 end ICal.C16
